@@ -150,8 +150,13 @@ def _as_array_or_scalar(exprs: Sequence[ScalarExpression],
     """
 
     result: list[ArrayOrScalar] = []
-    if out_shape != get_shape_after_broadcasting(bindings.values()):
-        raise UnknownIndexLambdaExpr()
+    from pytato.diagnostic import CannotBroadcastError
+    try:
+        if out_shape != get_shape_after_broadcasting(bindings.values()):
+            raise UnknownIndexLambdaExpr()
+    except CannotBroadcastError:
+        # e.g. an outer product: the operands index different result axes
+        raise UnknownIndexLambdaExpr() from None
 
     binding_to_subscript = {bnd_name: p.Subscript(
         p.Variable(bnd_name),
